@@ -92,12 +92,12 @@ def run(ctx):
             ctx.cov["design_step_detects_wrapping_product"] = hit
             if not hit:
                 raise vlib.Infra("sensitivity: the wrapping rule no longer differs from the exact rule in FeeMarket_MC")
-    calls = ctx.pick(3, 400)
+    calls = ctx.pick(2, 400)
     rc, out = vlib.go_driver(ctx, PKG, "^TestVerifFeeMarketRows$", files=FILES, env={"VERIF_CALLS": calls})
     if rc != 0:
         raise vlib.Infra("fee market recorder failed:\n" + out[-3000:])
     rows = vlib.read_ndjson(os.path.join(ctx.work, "out", "rows.ndjson"))
-    if ctx.only is None and len(rows) < 5 * (calls + ctx.pick(11, 17)):
+    if ctx.only is None and len(rows) < 5 * (calls + ctx.pick(9, 17)):
         raise vlib.Infra("recorder wrote %d rows for %d calls" % (len(rows), calls))
     if not rows:
         raise vlib.Infra("recorder wrote no rows")
